@@ -1,6 +1,7 @@
 import QV.Drive.Util
 import QV.Model.Front
 import QV.Model.Sem
+import QV.Model.SemX
 /-! JSON handlers of C01: `c01.translate` (a whole program, as `ast2ast` leaves it, to the truth
 table of its return bits) and `c01.arith` (one library function on symbolic / constant operands). -/
 namespace QV.Drive.C01
@@ -135,7 +136,25 @@ def semwOp (j : Json) : R Json := do
     match QV.Sem.semProg prog (assignment argBits k) with
     | some v => Json.str (bitsToString v.bits)
     | none => Json.null
-  pure (Json.mkObj [("argbits", strsJ argBits), ("rows", Json.arr rows.toArray)])
+  -- the exact semantics `Sem` (QV/Model/SemX.lean): per row `[python value, k, claimed bits, inRange]`
+  -- (`k = null`: in range; claimed bits as a string over 0 / 1 / ?), `null` where `Sem` gives no meaning
+  let exact : List Json := (List.range (2 ^ argBits.length)).map fun k =>
+    let ρ := assignment argBits k
+    match QV.Sem.semProgX prog ρ with
+    | some xv =>
+      let x : Json := match xv.v with
+        | .bool b => toJson (if b then (1 : Int) else 0)
+        | .int _ x => toJson x
+      let kk : Json := match xv.k with
+        | none => Json.null
+        | some n => toJson n
+      let claim := String.ofList (xv.claim.map fun c => match c with
+        | none => '?'
+        | some b => bitChar b)
+      Json.arr #[x, kk, Json.str claim, Json.bool (QV.Sem.inRangeProg prog ρ)]
+    | none => Json.null
+  pure (Json.mkObj [("argbits", strsJ argBits), ("rows", Json.arr rows.toArray),
+                    ("exact", Json.arr exact.toArray)])
 
 def handle (op : String) (j : Json) : Option (Except String Json) :=
   match op with
